@@ -48,6 +48,11 @@ def run(tier):
         ts = QUICK_T[sys] if tier == "quick" else list(range(nt))
         for ta, tb, tc in itertools.product(ts, repeat=3):
             jobs.append(dict(base, harness="VerifC01ExtLaws", params={"sys": sys, "ta": ta, "tb": tb, "tc": tc}))
-    return run_property("C01", tier, [Group("semver", jobs)], required_covers=["strict chain", "equal pair", "accepted", "three versions parsed"],
+    # history independence across systems (pairs of systems, same strings)
+    syspairs = [(0, 4), (4, 1), (3, 0), (6, 4), (1, 2), (5, 4), (7, 0), (4, 8)] if tier == "quick" else [(x, y) for x in range(9) for y in range(9) if x != y]
+    for sa_, sb_ in syspairs:
+        for ta, tb in ([(0, 0), (1, 1), (2, 0), (3, 3)] if tier == "quick" else list(itertools.product(range(6), repeat=2))):
+            jobs.append(dict(base, harness="VerifC01History", params={"sysa": sa_, "sysb": sb_, "ta": ta, "tb": tb}))
+    return run_property("C01", tier, [Group("semver", jobs)], required_covers=["strict chain", "equal pair", "accepted", "three versions parsed", "both parse"],
                         assumptions=["struct-level versions: numeric components are arbitrary int64 >= -1 (wildcard), prerelease bytes in [0-9A-Za-z-] (NuGet: trailing *)"],
                         bounds={"shapes": "k<=3 components, prerelease elements <= %d of <= 2 bytes" % (1 if tier == "quick" else 2), "coverage_len": ncov})
